@@ -3,6 +3,7 @@
 package secretstore
 
 import (
+	"context"
 	"fmt"
 	"strings"
 	"testing"
@@ -39,7 +40,7 @@ func TestVerif_C09_TransientReadFailure(t *testing.T) {
 			}
 		}
 		send(rapid.IntRange(1, 5).Draw(rt, "first"), "first")
-		call := rapid.SampledFrom([]string{"share", "share", "putgroup", "seal"}).Draw(rt, "call")
+		call := rapid.SampledFrom([]string{"share", "share", "putgroup", "seal", "seal-given-up", "seal-given-up"}).Draw(rt, "call")
 		failFrom := rapid.IntRange(1, 4).Draw(rt, "failFrom") // the n-th read of a chain-key record during the call ...
 		failCount := rapid.IntRange(1, 3).Draw(rt, "failCount") // ... and how many reads in a row fail
 		seen, fired := 0, 0
@@ -55,7 +56,29 @@ func TestVerif_C09_TransientReadFailure(t *testing.T) {
 			return false
 		}
 		var callErr error
+		givenUp := false
 		switch call {
+		case "seal-given-up":
+			// no storage failure: the caller of one send gives up (its context is cancelled) while the send is at its n-th
+			// datastore access. The send may still hand out its envelope, or report an error and hand out nothing - and
+			// then it has not used up a counter.
+			w.ds.FailGet = nil
+			ctx, cancel := context.WithCancel(vctx)
+			at, seenOps := rapid.IntRange(1, 8).Draw(rt, "cancelAt"), 0
+			w.ds.Hook = func(op, key string) {
+				seenOps++
+				if seenOps == at {
+					givenUp = true
+					cancel()
+				}
+			}
+			env, err := w.S.s.SealEnvelope(ctx, g, vWrap([]byte("given-up")))
+			w.ds.Hook = nil
+			cancel()
+			callErr = err
+			if err == nil {
+				sent = append(sent, c09Sent{0, env, []byte("given-up")})
+			}
 		case "share":
 			_, callErr = w.S.s.GetShareableChainKey(vctx, g, w.R.md(g).Member())
 		case "putgroup":
@@ -69,7 +92,7 @@ func TestVerif_C09_TransientReadFailure(t *testing.T) {
 		}
 		w.ds.FailGet = nil
 		send(rapid.IntRange(1, 5).Draw(rt, "second"), "second")
-		desc := map[string]any{"kind": vKindNames[kind], "pre": pre, "call_during_the_outage": call, "first_failing_read": failFrom, "failing_reads": failCount, "reads_failed": fired, "call_reported_error": callErr != nil, "envelopes": len(sent)}
+		desc := map[string]any{"kind": vKindNames[kind], "pre": pre, "call_during_the_outage": call, "first_failing_read": failFrom, "failing_reads": failCount, "reads_failed": fired, "caller_gave_up_during_the_call": givenUp, "call_reported_error": callErr != nil, "envelopes": len(sent)}
 		if len(errs) > 0 {
 			acct.Violation("read-fault/seal-error", "TestVerif_C09_TransientReadFailure", map[string]any{"scenario": desc, "errors": errs})
 			rt.Fatalf("C09 read-fault/seal-error: SealEnvelope fails although the datastore works again: %v (%v)", errs, desc)
@@ -78,6 +101,6 @@ func TestVerif_C09_TransientReadFailure(t *testing.T) {
 			acct.Violation("read-fault/"+id, "TestVerif_C09_TransientReadFailure", map[string]any{"scenario": desc, "msg": msg})
 			rt.Fatalf("C09 read-fault/%s: %s (%v)", id, msg, desc)
 		}
-		acct.Case(fired > 0, fmt.Sprintf("rf|%d|%d|%s|%d|%d|%d", kind, pre, call, failFrom, failCount, len(sent)), func() any { return desc }, "read-fault", lbl(fired > 0, "read-fault/fired"), lbl(fired > 0 && call == "share", "read-fault/fired-while-sharing-the-key"))
+		acct.Case(fired > 0 || givenUp, fmt.Sprintf("rf|%d|%d|%s|%d|%d|%d", kind, pre, call, failFrom, failCount, len(sent)), func() any { return desc }, "read-fault", lbl(fired > 0, "read-fault/fired"), lbl(fired > 0 && call == "share", "read-fault/fired-while-sharing-the-key"), lbl(givenUp, "read-fault/caller-gave-up-during-a-send"))
 	})
 }
